@@ -126,3 +126,4 @@ def step_unit(kf):
 
 
 UNITS = {'c14_step': (['C14'], step_unit)}
+SEARCH = {'c14_step': ['c14_pos']}
